@@ -583,7 +583,27 @@ def loop_program(forms=None, nest=True, in_routine=False):
         loop = make_loop(env, f0, inner, 0, brk0)
         tail = [R.Print(N(value=99), ln=True)]
         if in_routine and ch.flag(0.4):
-            stmts += [R.RoutineDef('lp', [], loop + tail), R.Call('lp', [])]
+            # the loop variables may be parameters of the routine that also exist as globals: they stay the
+            # routine's own, the globals keep their values
+            lvars = []
+
+            def walk(nodes):
+                for n in nodes:
+                    if isinstance(n, R.Repeat):
+                        for v in (getattr(n, 'var', None), getattr(n, 'lvar', None)):
+                            if v and v not in lvars:
+                                lvars.append(v)
+                        walk(n.body)
+                    elif isinstance(n, R.If):
+                        walk(n.then)
+                        walk(n.els or [])
+            walk(loop)
+            if lvars and ch.flag(0.6):
+                stmts += [R.Assign(v, N(value=70 + k)) for k, v in enumerate(lvars)]
+                stmts += [R.RoutineDef('lp', list(lvars), loop + tail), R.Call('lp', [N(value=80 + k) for k in range(len(lvars))])]
+                stmts += [R.Print(R.Var(v), ln=True) for v in lvars]
+            else:
+                stmts += [R.RoutineDef('lp', [], loop + tail), R.Call('lp', [])]
         else:
             stmts += loop + tail
         return (pop, stmts)
@@ -609,6 +629,11 @@ def compound_def_program():
         where = ch.pick(['top-first', 'top-mid', 'if', 'else', 'if-mid', 'repeat', 'while', 'nested-if'])
         pre = [m()] if ch.flag() else []
         post = [m()] if ch.flag() else []
+        # a macro defined in the middle of an open if/repeat body (a compile-time constant, used only where it is known to be defined)
+        if ch.flag(0.4):
+            pre = pre + [R.Define('k1', N(value=7)), R.Print(R.Var('k1'), ln=True)]
+        if ch.flag(0.4):
+            post = [R.Define('k2', R.Str('two')), R.Print(R.Var('k2'), ln=True)] + post
         inner = pre + [rdef] + post
         if ch.flag(0.4):
             inner = inner + [call]
